@@ -246,6 +246,12 @@ class SGen:
             ])
             self.feat.add("loopfilter")
         body = self.block(self.sub(st, loop=True, flow=True), r.randint(1, 4))
+        if self.o.loopvar and r.random() < 0.2:
+            # look ahead first (loop.last), then ask for the length: on an iterable without
+            # len() (filtered loops) the engine has already pulled one item out of the iterator
+            self.feat.add("loop_lookahead_then_length")
+            body = [["out", ["attr", N("loop"), "last"]],
+                    ["out", ["attr", N("loop"), self.pick(["length", "revindex", "revindex0"])]]] + body
         els = None
         if r.random() < 0.35:
             els = self.block(self.sub(st, loop=False, flow=False), r.randint(1, 2))
